@@ -460,5 +460,14 @@ impl FunctionName {
     pub fn get_expected_number_of_args__canary(&self) -> (res: usize)
 { assert(false); vstd::pervasive::unreached() }
 }
+// ---- fn guard/src/rules/eval_context.rs::query_retrieval_with_converter fragment #0 (R16)
+fn verif_fragment_query_retrieval_with_converter_0(index: &i32) -> (res: usize)
+    ensures
+        res as int == (if *index >= 0 { *index as int } else { -(*index as int) }),
+{
+    
+    let check = index.unsigned_abs() as usize;
+    check
+}
 } // verus!
 fn main() {}
